@@ -20,7 +20,7 @@ func init() {
 		explain: "Decides which stores can change an existing line and what they may do to it, and that the text written is the in-order concatenation of the (patched) original lines: (P03-linewrites) every store to the Text of an existing line writes a value derived from the old value of that same line — old + x, strings.Replace(old, a, b, 1), or a regexp replacement whose pattern is ^(prefix)X(suffix)$ with unrestricted groups and whose template re-emits both groups around the new token; " +
 			"(P03-lineending) a line ending of an existing line is only set when that same line has none; (P03-insert) insert() builds the new line list from whole copies of the old lines, in order, plus lines made from the texts to insert, with length old+inserted; (P03-result) the result text is an unconditional in-order fold of Original() = Text + LineEnding over these lines and flatten() keeps every block's lines in order; (P03-write-arg = P05-guarded-write) exactly that text goes to the target file; (P08-nowriters) nothing outside package reconciling writes line fields. " +
 			"Not covered: the line-index arithmetic (which line is patched, where lines are inserted, contiguity of inserted blocks) — value-level.",
-		rules: []ruleFn{ruleP03LineWrites, ruleP03LineEnding, ruleP03Insert, ruleP03Result, ruleP08NoWriters, ruleP05GuardedWrite},
+		rules: []ruleFn{ruleP03LineWrites, ruleP03LineEnding, ruleP03Insert, ruleP03Result, ruleP08NoWriters, ruleP05GuardedWrite, ruleP04PauseToken},
 	})
 	register(&propSpec{
 		id:    "C08",
@@ -28,7 +28,7 @@ func init() {
 		explain: "Decided on the SSA program: (P08-cursor) ParseBlock cuts each line as text[previous end : next end], and on every path that keeps the line both the cursor and the byte count advance by that line; mapParse parses the next block from text[consumed:], adds the bytes the block consumed and the number of lines it holds, unconditionally; " +
 			"(P08-original / P08-folds = P03-result) Original() = Text + LineEnding, the rebuilt text and flatten() are unconditional in-order folds; (P08-nowriters) outside their constructors line fields are only stored in package reconciling; (P08-split) splitOffLineEnding returns a prefix and the matching suffix of its argument. " +
 			"Not covered: that 'last line' detection and block boundaries are right for every input (string arithmetic on positions).",
-		rules: []ruleFn{ruleP08Cursor, ruleP03Result, ruleP08NoWriters, ruleP08Split},
+		rules: []ruleFn{ruleP08Cursor, ruleP03Result, ruleP08NoWriters, ruleP08Split, ruleP06RuneWidth},
 	})
 }
 
